@@ -328,7 +328,17 @@ func unbufClose() {
 	sched.SetOutcome(fmt.Sprint(ok))
 }
 
+// the lost update again, with the racing part inside / outside the explored window
+func quietWindow(open bool) func() {
+	return func() {
+		sched.SetQuiet(!open)
+		lostUpdate()
+	}
+}
+
 var lits = []lit{
+	{"window closed: lost-update P=1", sched.Bounds{F: -1, P: 1}, 0, quietWindow(false), []string{"2"}},
+	{"window open: lost-update P=1", sched.Bounds{F: -1, P: 1}, 0, quietWindow(true), []string{"1", "2"}},
 	{"unbuffered two-senders P=2", sched.Bounds{F: -1, P: 2}, 0, unbufTwoSenders, []string{"12 left=0", "21 left=0"}},
 	{"deadline-shape buffered, silent peer", sched.Bounds{F: -1, P: 2, Sel: 1}, 1, deadlineShape(1, false), []string{"timeout left=0"}},
 	{"deadline-shape unbuffered, silent peer", sched.Bounds{F: -1, P: 2, Sel: 1}, 1, deadlineShape(0, false), []string{"timeout left=1"}},
